@@ -165,8 +165,8 @@ def _run(sim, case, r):
         return True
     if case.get('falsy_validator'):
         # a callable policy OBJECT that happens to be falsy (it has a __len__)
-        from ..sim.appsim import FalsyCallable
-        validator = FalsyCallable(validator)
+        from ..sim.appsim import shape_callable
+        validator = shape_callable(validator, case['falsy_validator'])
 
     out, out2 = [], []
     box, box2 = {}, {}
@@ -324,7 +324,7 @@ def _case(draw):
             'ask_tail': draw(st.booleans()),
             'twin': draw(st.sampled_from([None, None, 0, 1, 40, 60])),
             'empty_seg': draw(st.sampled_from([None, None, None, 0, 1, 2, 6])),
-            'validator_ms': draw(st.sampled_from([0, 0, 0, 30, 150, 600])), 'falsy_validator': draw(st.sampled_from([False, False, True])),
+            'validator_ms': draw(st.sampled_from([0, 0, 0, 30, 150, 600])), 'falsy_validator': draw(st.sampled_from([False, False, False, True, 'lambda', 'object', 'future', 'partial', 'wrapped'])),
             'lp': draw(st.sampled_from([False, False, True])), 'ask_full': draw(st.sampled_from([False, False, True])),
             'name_form': draw(st.integers(0, 4)), 'validator_via': draw(st.sampled_from(['arg', 'arg', 'app'])),
             'timeout': draw(st.sampled_from([100, 100, 4000, 1000, 50])), 'latency_ms': draw(st.sampled_from([0, 0, 20, 150, 400]))}
